@@ -1395,7 +1395,11 @@ class Covout:
         self.sigma = uncertainty
         self.baseline = baseline
 
-        # Parse the interactions into a numeric representation
+        self._interactions = dict()
+        self.update_outcomes()
+
+    def _parse_interactions(self) -> None:
+        # Parse the interactions into a numeric representation (relative to the current baseline)
         self._interactions = dict()
         if self.imp_interaction and not self.imp_interaction.lower() in ["best", "synergistic"]:
             for interaction in self.imp_interaction.split(","):
@@ -1404,8 +1408,6 @@ class Covout:
                 for x in combo:
                     assert x in self.progs, 'The impact interaction refers to a program "%s" which does not appear in the available programs' % (x)
                 self._interactions[combo] = float(val) - self.baseline
-
-        self.update_outcomes()
 
     @property
     def n_progs(self) -> int:
@@ -1454,6 +1456,9 @@ class Covout:
         3. Pre-compute the outcomes associated with every possible combination of programs
 
         """
+
+        # The explicit interaction outcomes are cached relative to the baseline, which may have changed
+        self._parse_interactions()
 
         # First, sort the program dict by the magnitude of the outcome
         prog_tuple = [(k, v) for k, v in self.progs.items()]
